@@ -15,6 +15,13 @@ CHECKS = {
         'prepare': 'zic',
         'assumptions': ZONENOTE,
     },
+    'C02': {
+        'bins': [rcbin('C02')],
+        'shards': {'quick': 12, 'thorough': 16},
+        'time_limit': {'quick': 900, 'thorough': 5400},
+        'prepare': 'zic',
+        'assumptions': ZONENOTE,
+    },
     'C04': {
         'bins': [rcbin('C04')],
         'shards': {'quick': 8, 'thorough': 16},
